@@ -18,7 +18,7 @@ from harness.props import c01
 
 PROPERTY = "C14"
 ENGINE = "c01"
-REQUIRED_THEOREMS = ["shunt_errors_are_syntax", "eval_plain_no_internal", "pySyntax_only_from_fragment", "disabled_never_used"]
+REQUIRED_THEOREMS = ["shunt_errors_are_syntax", "eval_plain_no_internal", "pySyntax_only_from_fragment", "disabled_never_used", "no_internal_error", "eval_no_internal"]
 TRUSTED = list(c01.TRUSTED)
 ASSUMPTIONS = [
     "strings whose exponent literal has two or more digits are excluded from the random streams (x**11 is valid and takes 2^11.. steps)",
@@ -216,7 +216,7 @@ def classify(c, o, why):
 
 
 LEVEL_TEXT = (
-    "Proof (partial): the model keeps every Python operation that can raise a non-parsing exception as an explicit 'internal' outcome; Lean theorems show for ALL token lists and ALL operator tables that every shunting-yard failure is the parsing error, for ALL strings that tokenisation/rewriting fails only with the parsing error or with SyntaxError exactly when an embedded Python fragment is rejected by Python, and for ALL expressions of the arithmetic fragment (unbounded nesting) that evaluation yields a term set or the parsing error. The unrestricted statement over every string and flag subset is kept as FULL (unproved) (it is false with MULTISTAGE: known finding C14-F1) and is covered by the correspondence on exhaustive short strings (length<=3 quick, <=4 thorough) over an adversarial alphabet, random Unicode strings, mutated formulas and multistage nestings, with the outcome-class oracle on the real parser."
+    "Proof: the model keeps every Python operation that can raise a non-parsing exception as an explicit 'internal' outcome; Lean theorems show for ALL token lists and ALL operator tables that every shunting-yard failure is the parsing error, for ALL strings that tokenisation/rewriting fails only with the parsing error or with SyntaxError exactly when an embedded Python fragment is rejected by Python, and for ALL expressions of the arithmetic fragment (unbounded nesting) that evaluation yields a term set or the parsing error. For parsers without the experimental MULTISTAGE flag the unrestricted statement IS proved (no_internal_error: for every string, both intercept settings and every TWOSIDED/MULTIPART subset, parsing yields a term structure, the parsing error or a fragment's SyntaxError, never an internal exception; by a shape invariant of the shunting-yard loop derived from the context-acceptance rules). With MULTISTAGE it is false of the code (known finding C14-F1) and is covered by the correspondence on exhaustive short strings (length<=3 quick, <=4 thorough) over an adversarial alphabet, random Unicode strings, mutated formulas and multistage nestings, with the outcome-class oracle on the real parser."
 )
 LEVEL_NOTE = (
     'Trusted: Lean kernel + the three standard axioms; the hand model validated by correspondence on the outcome class; sanitize_python_code (CPython ast) is a parameter assumed to raise only SyntaxError (checked per case: any other class is reported as internal).'
